@@ -25,7 +25,7 @@ import (
 	"verif/harness/xt"
 )
 
-const c14Rule = "rapid over (endpoint: SSO via query, SSO via form with SAMLEncoding=DEFLATE, logout via form, logout via query) x (inflated size S from 1 MiB to 256 MiB in the quick tier, to 1 GiB in the thorough tier) x (padding placed in a comment, in element text, in an attribute value, or after the document element) x (padding byte) x (wrapper otherwise valid / issuer unregistered): a DEFLATE stream of about S/1000 bytes is sent as one request, alone, on one goroutine; runtime.MemStats.TotalAlloc is read before and after ServeHTTP. x (compression level: fastest, about 800:1, or best, about 1030:1 - the format's maximum) x (one DEFLATE stream, or the message cut into 4 / 9 / 40 streams each finished on its own) x (padding of one repeated byte, or - on the form endpoints - text that compresses only 10:1, so that the payload itself is megabytes): Oracle: the allocation during the call is at most 160 MiB whatever S is, and a request with S >= 32 MiB (half an order of magnitude above the 10 MB the statement names) is not accepted (no CreateAuthRequest, no Success). Sizes below 32 MiB are executed and reported, not asserted (the statement fixes only the order of magnitude of the cap). The message parameter may occur up to 40 times, every occurrence spelled differently and inflating to the case's size. Non-trivial (sizes summed over occurrences): S >= 32 MiB with a compressed size below 1 MiB. Distinct by (endpoint, placement, size, wrapper validity)."
+const c14Rule = "rapid over (endpoint: SSO via query, SSO via form with SAMLEncoding=DEFLATE, logout via form, logout via query) x (inflated size S from 1 MiB to 256 MiB in the quick tier, to 1 GiB in the thorough tier) x (padding placed in a comment, in element text, in an attribute value, or after the document element) x (padding byte) x (wrapper otherwise valid / issuer unregistered): a DEFLATE stream of about S/1000 bytes is sent as one request, alone, on one goroutine; runtime.MemStats.TotalAlloc is read before and after ServeHTTP. x (compression level: fastest, about 800:1, or best, about 1030:1 - the format's maximum) x (one DEFLATE stream, or the message cut into 4 / 9 / 40 streams each finished on its own) x (padding of one repeated byte, or - on the form endpoints - text that compresses only 10:1, so that the payload itself is megabytes): Oracle: the allocation during the call is at most 160 MiB plus six times the bytes on the wire whatever S is, and a request with S >= 32 MiB (half an order of magnitude above the 10 MB the statement names) is not accepted (no CreateAuthRequest, no Success). Sizes below 32 MiB are executed and reported, not asserted (the statement fixes only the order of magnitude of the cap). The message parameter may occur up to 40 times, every occurrence spelled differently and inflating to the case's size. Non-trivial (sizes summed over occurrences): S >= 32 MiB with a compressed size below 1 MiB. Distinct by (endpoint, placement, size, wrapper validity)."
 
 type C14Case struct {
 	Endpoint  string `json:"endpoint"` // sso-query | sso-form | slo-form | slo-query
@@ -286,8 +286,11 @@ func c14Run(c C14Case) (vs []*ev.Violation, alloc uint64, compressed int, accept
 		}
 	}
 	accepted = len(okCalls) > 0 || success
-	if alloc > c14AllocLimit {
-		vs = append(vs, ev.V("C14/allocation-proportional-to-inflated-size", "%s, %d MiB inflated (%d KiB compressed, padding in %s): %d MiB allocated while serving the request (limit %d MiB)", c.Endpoint, c.SizeMiB, compressed>>10, c.Placement, alloc>>20, c14AllocLimit>>20))
+	// what arrives on the wire is paid for several times over by form parsing whatever it inflates to (a query of 50 MB is
+	// parsed anew by every r.URL.Query()): the bound is fixed in the inflated size, not in the size of the request itself
+	limit := uint64(c14AllocLimit) + 6*uint64(len(hr.RawQuery)+len(hr.Body))
+	if alloc > limit {
+		vs = append(vs, ev.V("C14/allocation-proportional-to-inflated-size", "%s, %d MiB inflated (%d KiB compressed, %d KiB on the wire, padding in %s): %d MiB allocated while serving the request (limit %d MiB)", c.Endpoint, c.SizeMiB, compressed>>10, (len(hr.RawQuery)+len(hr.Body))>>10, c.Placement, alloc>>20, limit>>20))
 	}
 	// With several streams only the first one is the message for an inflater that follows the format (what comes after the
 	// final block is trailing data it never looks at): the acceptance clause is then about the size of that first stream.
